@@ -297,6 +297,63 @@ func genC08(c *Ctx) {
 		s.end()
 		c.emit(line, "*", true)
 	}
+	genC08flushIntoGroup(c)
+}
+
+// part 3: a Tflush aimed at a shared tag while a member of the group is queued behind the running one.
+// The queued member is cancelled; the members that arrive afterwards must still wait for the running one.
+func genC08flushIntoGroup(c *Ctx) {
+	for k := 0; k < c.scale(12, 300) && !c.stop(); k++ {
+		i := 900000 + k
+		r := c.rng(i)
+		maxpend := []int{0, 1, 8}[r.Intn(3)]
+		line := fmt.Sprintf("lifejudge C08 flush-into-group seed=%d maxpend=%d", i, maxpend)
+		c.begin(line)
+		s := newLifeSess(8192, maxpend, false)
+		if !s.setup(3) {
+			c.oracleFail("C08/setup", "session set-up failed", line)
+			s.end()
+			continue
+		}
+		base := s.nreqs()
+		f0 := s.nframes()
+		s.mu.Lock()
+		s.plans[base] = plan{gate: true}   // T1, the running member
+		s.plans[base+3] = plan{gate: true} // T3, arriving after the flush
+		s.mu.Unlock()
+		s.write(s.send(30, func(fc *g.Fcall) error { return g.PackTstat(fc, 1) }))
+		s.waitEntered([]int{base}, f0, 5*time.Second)
+		s.write(s.send(30, func(fc *g.Fcall) error { return g.PackTstat(fc, 2) })) // T2: queued behind T1
+		s.waitReqs(base+2, 2*time.Second)
+		time.Sleep(time.Duration(r.Intn(1000)) * time.Microsecond)
+		if f := s.rpc(31, func(fc *g.Fcall) error { return g.PackTflush(fc, 30) }); f == nil || f.typ != g.Rflush {
+			c.oracleFail("C08/flush-into-group/no-rflush", "the Tflush aimed at the shared tag was not answered", line)
+		}
+		s.write(s.send(30, func(fc *g.Fcall) error { return g.PackTstat(fc, 3) })) // T3
+		s.waitReqs(base+4, 2*time.Second)
+		// T1 is still inside the implementation: T3 must not be
+		early := false
+		dl := time.Now().Add(time.Duration(20+r.Intn(30)) * time.Millisecond)
+		for time.Now().Before(dl) && !early {
+			s.mu.Lock()
+			if base+3 < len(s.reqs) && atomic.LoadInt64(&s.reqs[base+3].entered) != 0 {
+				early = true
+			}
+			s.mu.Unlock()
+			time.Sleep(200 * time.Microsecond)
+		}
+		if early {
+			c.oracleFail("C08/fifo/two-at-a-time-after-flush", "a request under the shared tag reached the implementation while an older one of the group is still executing (a queued member in between had been cancelled by a Tflush)", line)
+		}
+		s.release(base)
+		s.release(base + 3)
+		s.waitFrames(f0+3, 3*time.Second)
+		s.quiet(2 * time.Millisecond)
+		c.count("flush-into-group")
+		s.emitLog(c)
+		s.end()
+		c.emit(line, "*", true)
+	}
 }
 
 // ---------------------------------------------------------------- C11
